@@ -44,6 +44,18 @@ def _s15(case, msg):
     return bool(names) and all(x in explained for x in names)
 
 
+@signature('adopt_while_channel_full')
+def _s12(case, msg):
+    # S12: after a reconnect the sender waits for the client lock in reqWhenReconnect while the lock is held by a lookup
+    # that waits for room in the full request channel; the witness is read from the goroutine dump. Any other hang
+    # (another scenario, other goroutines involved) is still a violation
+    if case.get('op') != 'flow' or case.get('kind') != 'flood' or ': S12: ' not in msg:
+        return False
+    o = case.get('obs', {})
+    return bool(o.get('hang') and o.get('senderInAdopt') and o.get('producerInSend')
+                and o.get('returnedWhileStalled', 0) >= 1024)
+
+
 def match(pid, case, msg):
     """the known finding that explains this spec failure, or None"""
     for e in _F.get('findings', []):
